@@ -177,16 +177,17 @@ Section Theorems.
 
   (* ---------- scheme-less column sets ---------- *)
   (* the header names no recognised scheme: the first record's column names
-     become the column line.  Provided the format can carry them (first name
-     does not start with '#', no name contains TAB/CR/LF, there is at least
-     one), the reader settles on exactly those names, returns one record per
+     become the column line.  The writer accepting the first record implies
+     the format can carry them (repaired writer: a first name starting with
+     '#' or a name containing TAB/CR/LF is refused with ValueError); provided
+     there is at least one, the reader settles on exactly those names, returns one record per
      record with the same names in the same order, each value being the text
      that was written, without validation errors; the second write gives the
      same entries *)
   Theorem round_trip_schemeless hl m0 lg0 l0 (h : header) m (r1 : mrec) (rest : list mrec) (translate : bool) :
     header_from_lines registry hl m0 lg0 = (l0, Ok h) -> Forall no_crlf hl ->
     h_scheme registry (hrecs h) = Ok None ->
-    carriable (record_names r1) ->
+    record_names r1 <> [] ->
     let s := no_restrictions (record_names r1) in
     let rs := r1 :: rest in
     let w1 := write_file h (Some m) rs in
@@ -203,8 +204,10 @@ Section Theorems.
               (run_recs (rt_read rt)) (accepted_records w1) /\
       rt_second rt = Some w2 /\ wr_clean w2 = true /\ wr_text w2 = wr_text w1.
   Proof.
-    intros Hh Hhl Hsch Hcar s rs w1 Hclean Hord rt.
-    assert (Ht : s_truthy s = true) by (apply norestr_truthy; destruct Hcar; assumption).
+    intros Hh Hhl Hsch Hne s rs w1 Hclean Hord rt.
+    pose proof (clean_first_writable sem registry h m r1 rest Hsch Hclean) as Hw.
+    pose proof (names_writable_carriable (record_names r1) Hne Hw) as Hcar.
+    assert (Ht : s_truthy s = true) by (apply norestr_truthy; exact Hne).
     assert (ND : NoDup (s_names s)) by apply no_restrictions_nodup.
     assert (Hcar' : carriable (s_names s)) by now apply norestr_carriable.
     assert (Hex : Forall (rereadable sem value_hazard s) rs).
@@ -212,7 +215,7 @@ Section Theorems.
       unfold rereadable_cell. cbn [fst snd]. destruct (s_class s n) as [[|c]|] eqn:E; try exact I.
       apply norestr_class in E. discriminate. }
     assert (Hfix : fixes_scheme (C:=C) (W:=W) None s rs).
-    { right. split; [reflexivity|]. exists r1, rest. split; reflexivity. }
+    { right. split; [reflexivity|]. exists r1, rest. split; [reflexivity|]. split; [reflexivity|exact Hw]. }
     destruct (round_trip_core sem registry key_of key_lt isinst_plain value_hazard record_fixpoint
                 hl m0 lg0 l0 h None s m rs translate Hh Hhl Hsch Hfix Ht Hcar' ND Hex Hclean Hord)
       as (rd & w2 & H1 & H2 & H3 & H4 & H5 & H6 & H7 & H8 & H9).
@@ -231,6 +234,23 @@ Section Theorems.
       split; [|exact He]. rewrite Hm. unfold FileIORows.reread_view. now rewrite cells_of_canon, Hc.
     - clear - H5. induction H5 as [|r' v rrs vs (_ & _ & Htx) _ IH]; constructor; assumption.
     - unfold wr_text. now rewrite H9.
+  Qed.
+
+  (* ... and column names the format cannot carry are refused: the scheme-less
+     writer raises ValueError for the first record, having written nothing for
+     it - the session is not clean, the file holds the pragma lines only *)
+  Theorem uncarriable_names_refused (h : header) m (r1 : mrec) (rest : list mrec) lg w :
+    writer_init registry h (Some m) = (lg, Ok w) -> h_scheme registry (hrecs h) = Ok None ->
+    names_writable (record_names r1) = false ->
+    writer_iadd sem w r1 = ([], w, Raise ValueError) /\
+    wr_clean (write_file h (Some m) (r1 :: rest)) = false.
+  Proof.
+    intros EI Hs Hw. destruct (writer_init_ok registry h m lg w EI) as (sch' & Hs' & _ & Ew).
+    rewrite Hs in Hs'. injection Hs' as <-.
+    assert (Hsch : w_scheme w = None) by (rewrite Ew; reflexivity).
+    split; [exact (iadd_refused sem w r1 Hsch Hw)|].
+    unfold wr_clean, FileIO.write_file. rewrite EI. cbn [writer_adds].
+    rewrite (iadd_refused sem w r1 Hsch Hw). destruct (writer_adds sem w rest) as [os w']. reflexivity.
   Qed.
 
   (* ---------- a scheme-less session without records ---------- *)
